@@ -1322,6 +1322,7 @@ impl Database {
 
         let can_onepass = pk_lookup_info.is_some()
             && unique_col_indices.is_empty()
+            && !needs_old_row_for_secondary_index
             && !has_toast
             && deferred_assignments.is_empty();
 
